@@ -14,9 +14,14 @@
    The picker is scripted by the op that lets a Pick call return (its result is an argument
    of the op), so "all picker behaviours" = all op lists.
 
+   Retries: a transparent retry of an attempt whose stream could not be created (ns = 2), and
+   - op [10;t] - a retry-policy retry of an RPC whose stream WAS created and whose stream
+   operation then failed with a retryable status (retryLocked with a non-empty replay buffer:
+   finish the attempt, back off, newAttemptLocked, replay op 0 = getTransport + newStream on the
+   new attempt; this is the only way the loop of retryLocked runs a second time, i.e. the only
+   place where "attempt" and "cs.attempt" are different objects).
    Not modelled: lastPickErr (only changes an error string), pick.blocked (stats only),
-   retry-policy retries (cc.dopts.disableRetry is set in the driver; C18), retries of an
-   attempt that already has a transport stream (C18 driver counts Done end to end).
+   the retry budget (MaxAttempts is 2^30 in the driver), throttling and pushback (C18).
    No proofs in this file. *)
 From Coq Require Import List ZArith Bool.
 From VLib Require Import Codec.
@@ -147,9 +152,14 @@ Definition valid_sc (s : state) (a : Z) : bool := (0 <=? a) && (a <? Z.of_nat (l
    [7;t;how]         the context of RPC t is cancelled (how = 1) / exceeds its deadline (2)
    [8;t;e]           cs.finish(err), err == nil (io.EOF) iff e = 0          (stream created)
    [9;t]             withRetry(op returning an error, commitAttemptLocked)  (stream created)
+   [10;t]            withRetry(op failing once with a status the retry policy retries,
+                     commitAttemptLocked)                                   (stream created)
+                     The committed flag is set by this op already: it gates only ops 9/10, which
+                     need st = 3, and st = 3 is reached again only through onSuccess =
+                     commitAttemptLocked (every failure path commits or ends the RPC as well).
    anything else, or an op that does not apply in the current state, is a no-op *)
 Inductive dop := DStart (t f : Z) | DUpdate | DReset | DClose | DPick (t kind a b ns : Z) | DSetSC (a r : Z)
-  | DCancel (t how : Z) | DFinish (t e : Z) | DOpFail (t : Z) | DNop.
+  | DCancel (t how : Z) | DFinish (t e : Z) | DOpFail (t : Z) | DRetryFail (t : Z) | DNop.
 Definition decode (op : word) : dop :=
   match op with
   | [1; t; f] => DStart t f
@@ -161,6 +171,7 @@ Definition decode (op : word) : dop :=
   | [7; t; how] => DCancel t how
   | [8; t; e] => DFinish t e
   | [9; t] => DOpFail t
+  | [10; t] => DRetryFail t
   | _ => DNop
   end.
 
@@ -215,6 +226,16 @@ Definition dstep (s : state) (d : dop) : state * list ev :=
     match getth s t with
     | Some x => if (st x =? 3) && negb (committed x) then
                   let '(x1, d) := afinish x 1 in (putth s t (set_commit x1 false), d)
+                else (s, [])
+    | None => (s, [])
+    end
+  | DRetryFail t =>
+    match getth s t with
+    | Some x => if (st x =? 3) && (negb (committed x) && negb (csfin x)) then
+                  let '(x1, d) := afinish x 1 in               (* retryLocked: attempt.finish(err) *)
+                  (* shouldRetry backs off (or returns the context's error), newAttemptLocked,
+                     replayBufferLocked: op 0 on the new attempt *)
+                  let '(x2, e2) := new_attempt (p s) t (set_commit x1 false) in (putth s t x2, d ++ e2)
                 else (s, [])
     | None => (s, [])
     end
@@ -304,7 +325,9 @@ Definition applies5 (s : state) (x : th) (kind a b ns : Z) : bool :=
    - a result with Done for a sub-channel that is not READY: now, with a nil error;
    - READY but the stream cannot be created: now (the attempt is finished before a retry
      or before the error is returned), with the error;
-   - stream created: at the first cs.finish / failed stream operation of that RPC. *)
+   - stream created: at the first cs.finish / failed stream operation of that RPC (also when
+     that failure is retried: the attempt being abandoned is finished before the next one
+     is picked, and a retry attempt is a pick like any other for the first two rules). *)
 Definition due (s : state) (op : dop) : word :=
   match op with
   | DPick t kind a b ns =>
@@ -324,6 +347,12 @@ Definition due (s : state) (op : dop) : word :=
   | DOpFail t =>
     match getth s t with
     | Some x => if (st x =? 3) && negb (committed x) && negb (afin x) && negb (tok x =? 0)
+                then [tok x; 1] else []
+    | None => []
+    end
+  | DRetryFail t =>
+    match getth s t with
+    | Some x => if (st x =? 3) && (negb (committed x) && negb (csfin x)) && negb (afin x) && negb (tok x =? 0)
                 then [tok x; 1] else []
     | None => []
     end
